@@ -13,7 +13,7 @@
 (*   Reg       = vk(96) . stake(8)                                          *)
 (*   Sig       = nIdx(8) . idx(8)* . sigma(48) . signer(8)                  *)
 (*   BatchPath = lenV(8) . lenI(8) . value(32)* . index(8)*                 *)
-(*   BatchCommitment = nrLeaves(8) . root(*)    AVK = BatchCommitment . stake(8) *)
+(*   BatchCommitment = nrLeaves(8) . root(..)   AVK = BatchCommitment . stake(8) *)
 (*   MerkleTree = n(8) . node(32)*                                          *)
 (*                                                                          *)
 (* `usize` is scaled to MAXU (all comparisons are between "offset + length  *)
@@ -26,7 +26,7 @@
 (* level; ProtocolKey: JSON-hex then bytes-hex or the reverse) is modelled  *)
 (* as dispatch only: the third-party parsers are not modelled.              *)
 (***************************************************************************)
-EXTENDS Naturals, Sequences, FiniteSets, TLC
+EXTENDS Integers, Sequences, FiniteSets, TLC
 
 CONSTANTS MAXU,         \* usize::MAX, scaled
           BIG,          \* class "big"
@@ -300,18 +300,21 @@ Decode(ty, buf) ==
 (* Dispatch layer of mithril-common: the same bytes through the outer forms. *)
 (* A binary payload is never a JSON document (first byte 0 / 0xff / BLS      *)
 (* flag), so from_json_hex fails and the bytes-hex codec is reached.         *)
+(* mithril-stm: the CBOR envelopes (aggregate signature, concatenation proof, signature with  *)
+(* registered party) carry nested byte strings handed to the same versioned from_bytes, so a *)
+(* legacy layout nested in the current format reaches the same legacy decoder.               *)
 OuterForms == {"from_bytes", "from_bytes_hex", "key_json_then_bytes", "key_bytes_then_json",
-               "key_deserialize", "message_field"}
-Outer(form, ty, buf) ==
-    LET bytesHex == Decode(ty, buf)          \* hex decoding of hex(bytes) is the identity
+               "key_deserialize", "message_field", "cbor_envelope"}
+Outer(form, d) ==                            \* d = Decode(ty, buf)
+    LET bytesHex == d                        \* hex decoding of hex(bytes) is the identity
         jsonHex  == ErrR("json")             \* serde_json on binary content
-    IN CASE form = "from_bytes"          -> Decode(ty, buf)
+    IN CASE form = "from_bytes"          -> d
          [] form = "from_bytes_hex"      -> bytesHex
          [] form = "key_json_then_bytes" -> IF jsonHex.st = "ok" THEN jsonHex ELSE bytesHex
-         [] form = "key_bytes_then_json" -> IF bytesHex.st = "ok" THEN bytesHex ELSE
-                                            IF bytesHex.st = "err" THEN jsonHex ELSE bytesHex
+         [] form = "key_bytes_then_json" -> IF bytesHex.st = "err" THEN jsonHex ELSE bytesHex
          [] form = "key_deserialize"     -> IF jsonHex.st = "ok" THEN jsonHex ELSE bytesHex
          [] form = "message_field"       -> IF jsonHex.st = "ok" THEN jsonHex ELSE bytesHex
+         [] form = "cbor_envelope"       -> d
 
 -----------------------------------------------------------------------------
 (* Independent classification of the bytes (what the harness recomputes from *)
